@@ -79,12 +79,59 @@ def r13_1(ctx, prog, crate):
                           detail={"option": sorted(ids), "goes_to": fn})
                 recv = {z.label() for z in b.prov.op_src(cs[0].args[0]) if z.kind == "param"}
                 ctx.check(recv == {"param:self.filters"}, "R13.1", ["cli", fn, "into-self.filters"], "receiver %s" % sorted(recv), cs[0].line())
+                # one Filter per command-line value: the call sits in a loop over the option's values, runs once per
+                # value, and its argument is made from that value alone (values are never merged into one pattern)
+                c = cs[0]
+                lp = b.innermost_loop(c.bb)
+                okl = lp is not None and b.once_per_iteration(c.bb, lp)
+                item_ok = False
+                if okl:
+                    from lib.symexpr import Sym
+                    e = Sym(b, site_args=True).op(c.args[1])
+                    # parse_filter(<payload of this loop's next()>)
+                    if e[0] == "site" and len(e) > 3 and len(e[3]) == 2:
+                        a = e[3][1]
+                        if a[0] == "tuple" and len(a[1]) == 1:
+                            a = a[1][0]
+                        item_ok = a[0] == "payload" and a[1] == "Some" and a[3][0] == "site" and a[3][1].endswith("::next") and a[3][2] in lp["body"]
+                        if item_ok:
+                            # ... and the loop runs over clap's values of that option themselves (no map/collect/join in between)
+                            it = a[3][3][0] if a[3][3] else ("opaque", "")
+                            while it[0] in ("ptr", "sptr"):
+                                break
+                            seen_getter = False
+                            cur = it
+                            for _ in range(6):
+                                if cur[0] == "site" and "into_iter" in cur[1] and cur[3]:
+                                    cur = cur[3][0]
+                                    continue
+                                if cur[0] == "payload" and cur[1] == "Some":
+                                    cur = cur[3]
+                                    continue
+                                if cur[0] == "site" and cur[1] in ("clap::ArgMatches::remove_many", "clap::ArgMatches::get_many"):
+                                    seen_getter = True
+                                break
+                            item_ok = seen_getter
+                ctx.check(okl and item_ok, "R13.1", ["cli", fn, "one-filter-per-value"],
+                          "FilterSet::%s is not called exactly once per command-line value with a filter made from that value alone" % fn, c.line())
         # parse_filter closure
         pf = [x for x in prog.children(b) if x.kind == "Closure" and any(s["k"] == "assign" and s["rv"]["k"] == "agg" and s["rv"].get("adt", "").endswith("config::filter::Filter")
                                                                          for bi, si, s in x.stmts())]
         if ctx.check(len(pf) == 1, "R13.1", ["cli", "parse_filter"], "parse_filter closures: %d" % len(pf), b.where(0)):
             x = pf[0]
             ctx.saw(x)
+            # the pattern compiled / the exact text stored is the value itself
+            rn = [c for c in x.live_calls() if c.callee.endswith("Regex::new")]
+            if ctx.check(len(rn) == 1, "R13.1", ["cli", "parse_filter", "one-Regex::new"], "Regex::new sites: %d" % len(rn), x.where(0)):
+                srcs = x.prov.op_src(rn[0].args[0])
+                other = sorted({z.a for z in srcs if z.kind == "call" and not z.a.endswith(("Deref>::deref", "::as_str", "::as_ref", "::borrow"))} |
+                               {z.label() for z in srcs if z.kind in ("upvar", "const", "static")})
+                ctx.check({z.label() for z in srcs if z.kind == "param"} == {"param:" + x.param_name(2)} and not other, "R13.1", ["cli", "parse_filter", "pattern-is-the-value"],
+                          "the compiled pattern derives from %s besides the value itself" % other, rn[0].line())
+            for bi_, si_, s_ in x.stmts():
+                if s_["k"] == "assign" and s_["rv"]["k"] == "agg" and s_["rv"].get("variant") == "Exact":
+                    lab = {z.label() for z in x.prov.op_src(s_["rv"]["ops"][0])}
+                    ctx.check(lab == {"param:" + x.param_name(2)}, "R13.1", ["cli", "parse_filter", "exact-text-is-the-value"], "Filter::Exact holds %s" % sorted(lab), x.where(bi_))
             sw = [(bi, t) for bi, t in x.switches() if any(z.kind == "upvar" for z in x.prov.op_src(t["discr"])) and not any(z.kind in ("binop", "unop", "call") for z in x.prov.op_src(t["discr"]))]
             if ctx.check(len(sw) == 1, "R13.1", ["cli", "parse_filter", "branch-on-flag"], "branches on a captured flag: %d" % len(sw), x.where(0)):
                 bi, t = sw[0]
